@@ -1395,10 +1395,12 @@ theorem c10_check_label_counterexample :
 /-- **tie_check_every_get_error_faulty**: regenerated from `CheckPastBeacons` — the first statement after
 `b, err := s.store.Get(ctx, i)` is `if err != nil { faultyBeacons = append(faultyBeacons, i); …; continue }`, nothing in the
 loop returns on a read error or looks at the kind of error (the model's `notStored` and `otherErr` arms are the same), a
-beacon that does not verify is reported under the round it carries, and the as-is loop has no label comparison. -/
+beacon whose round differs from the round asked for is reported under the round asked for (repair 10aa81d7; before it the
+loop had no label comparison: `checkPast false`, `c10_check_label_counterexample`), after which `b.Round = i`. -/
 theorem tie_check_every_get_error_faulty :
-    Gen.checkPastEveryGetErrorFaulty = true ∧ Gen.checkPastLabelChecked = false ∧
+    Gen.checkPastEveryGetErrorFaulty = true ∧ Gen.checkPastLabelChecked = true ∧
     Gen.checkPastSteps = ["err!=nil => faulty:i,[i>=upTo]break,continue",
+      "b.Round!=i => faulty:i,[i>=upTo]break,continue",
       "err=s.scheme.VerifyBeacon(b,s.info.PublicKey);err!=nil => faulty:b.Round",
       "i%commonutils.LogsToSkip==0 => ", "i>=upTo => break"] := by decide
 
